@@ -253,7 +253,7 @@ class FlatGen:
         forms = ["add", "scale", "elem", "slice", "sum", "literal", "fill", "zeros", "linspace",
                  "ifexpr", "neg", "div", "ones"]
         if self.matrices:
-            forms += ["matvec", "transpose-prod", "mat-elemwise"]
+            forms += ["matvec", "transpose-prod", "mat-elemwise", "sum-matrix", "sum-row-slice", "row-colon"]
         if len(self.vectors) >= 2 and n >= 2:
             forms += ["cat"]
         f = r.choice(forms)
@@ -305,6 +305,15 @@ class FlatGen:
             t = "y%d" % (len(self.m["vars"]))
             self.decl(t, dims=[self.mrows, self.vlen])
             e = ("eq", var(t), ("bin", r.choice(("+", "-", ".*")), var(a), ("bin", "*", num(2), var(b))))
+        elif f == "sum-matrix":
+            e = ("eq", self.fresh_target(), ("call", "sum", [var(r.choice(self.matrices))]))
+        elif f == "sum-row-slice":
+            a = r.choice(self.matrices)
+            lo = r.randint(1, n)
+            e = ("eq", self.fresh_target(), ("call", "sum", [("idx", a, [num(r.randint(1, self.mrows)), ("slice", num(lo), None, num(r.randint(lo, n)))])]))
+        elif f == "row-colon":
+            a = r.choice(self.matrices)
+            e = ("eq", ("idx", a, [num(r.randint(1, self.mrows)), ("colon",)]), ("bin", "*", num(2), var(w)))
         elif f == "cat":
             t = "y%d" % (len(self.m["vars"]))
             self.decl(t, dims=[2 * n])
